@@ -5,8 +5,8 @@
       contact_plane, check_tetrahedra_intersect_contact_plane, plane_basis_from_normal
       (utils.py), make_halfplanes (WITH its row bookkeeping: an array of 8 rows that
       starts uninitialised and a counter), cross2d, intersect_two_halfplanes,
-      point_outside_of_halfplane, intersect_halfplanes (output array of 3*n rows, counter,
-      final assert), filter_unique_points, project_polygon_to_3d,
+      point_outside_of_halfplane, intersect_halfplanes (output array of n(n-1)/2+1 rows - one per
+      pair of halfplanes, /repo f6c3926 -, counter, final assert), filter_unique_points, project_polygon_to_3d,
       compute_contact_polygon, _handle_same_tetrahedron, intersect_tetrahedron_pair.
     Not transliterated but modelled:
       - order_points sorts by np.arctan2 / np.argsort; the model takes the permutation
@@ -190,8 +190,9 @@ Section Hydro.
     end.
 
   (** [intersect_halfplanes(halfplanes)] *)
+  Definition hp_cap (n : nat) : nat := (n * (n - 1) / 2 + 1)%nat.   (* len * (len - 1) // 2 + 1 *)
   Definition intersect_halfplanes (hs : list (HP F)) : res (list (V2 F)) :=
-    let cap := (3 * length hs)%nat in
+    let cap := hp_cap (length hs) in
     pts <- outer_loop hs cap hs 0 [] ;;
     (* assert n_intersections < len(points) *)
     if (length pts <? cap)%nat then Ok pts else Err EAssert.
